@@ -264,7 +264,17 @@ fn exprx(out: &mut Vec<GSpec>) {
 
 /// F-kind: every nesting (depth 3) of the five rule kinds around sequences and repetitions.
 fn kind(out: &mut Vec<GSpec>) {
-    let bodies = ["\"a\" ~ \"b\"", "\"a\"*", "\"a\"+", "\"a\" ~ \"b\"*", "(\"a\" ~ \"b\")*", "\"a\"? ~ \"b\""];
+    let bodies = [
+        "\"a\" ~ \"b\"",
+        "\"a\"*",
+        "\"a\"+",
+        "\"a\" ~ \"b\"*",
+        "(\"a\" ~ \"b\")*",
+        "\"a\"? ~ \"b\"",
+        // explicit references to the skip rules
+        "\"a\" ~ WHITESPACE ~ \"b\"",
+        "\"a\" ~ COMMENT* ~ \"b\"",
+    ];
     let kinds = ['N', 'S', 'A', 'C', 'X'];
     struct Cfg {
         name: String,
@@ -313,6 +323,19 @@ fn kind(out: &mut Vec<GSpec>) {
             thorough_bodies: vec![0],
         });
     }
+    // explicit references to WHITESPACE / COMMENT from rules of every kind
+    cfgs.push(Cfg {
+        name: "wsref".into(),
+        skip: vec![RuleSpec::helper("WHITESPACE", 'S', "\"#\" ~ \" \"")],
+        quick_bodies: vec![6],
+        thorough_bodies: vec![],
+    });
+    cfgs.push(Cfg {
+        name: "cmref".into(),
+        skip: vec![RuleSpec::helper("WHITESPACE", 'S', "\" \""), RuleSpec::helper("COMMENT", 'N', "\"#\" ~ \"b\"")],
+        quick_bodies: vec![7],
+        thorough_bodies: vec![],
+    });
     // COMMENT only / WHITESPACE only, declared normal or silent, with a body whose atomic matching matters
     for k in ['N', 'S', 'A', 'C', 'X'] {
         cfgs.push(Cfg {
